@@ -1218,6 +1218,36 @@ async def sc_classic_session(w):
     w.script(script())
 
 
+async def sc_classic_roles(w):
+    """page with allow_role_switch in {0, 1}, accepted with role in {CENTRAL, PERIPHERAL}: the initiator's Create Connection
+    and the acceptor's Accept Connection Request are both accepted as pending, so both ends are owed a Connection Complete
+    (success, or an error when the role switch asked for is refused).  Nothing else is done on a link that did not come up:
+    what is still pending at quiescence is the verdict."""
+    from bumble import hci
+
+    a, b = w.stack(), w.stack()
+    await w.up()
+    w.noise(b)
+    v = w.desc.get("variant", 0) % 4
+    allow, role = v % 2, v // 2  # role 0: the acceptor asks to become central (role switch before the accept)
+
+    def on_request(bd_addr, cod, link_type):
+        w.script(cmd(b, hci.HCI_Accept_Connection_Request_Command(bd_addr=bd_addr, role=role)))
+
+    b.host.on("connection_request", on_request)
+
+    async def script():
+        await cmd(b, hci.HCI_Write_Scan_Enable_Command(scan_enable=3))
+        await cmd(a, hci.HCI_Create_Connection_Command(bd_addr=hci.Address(b.address, hci.Address.PUBLIC_DEVICE_ADDRESS), packet_type=0xCC18,
+                                                       page_scan_repetition_mode=2, reserved=0, clock_offset=0, allow_role_switch=allow))
+        await asyncio.sleep(3.0)
+        await cmd(b, hci.HCI_Read_BD_ADDR_Command())  # the acceptor's command path still works
+        if last_up(a) is not None and last_up(b) is not None:
+            await cmd(b, hci.HCI_Disconnect_Command(connection_handle=last_up(b), reason=0x13))
+
+    w.script(script())
+
+
 async def sc_unknown_handles(w):
     """handle-addressed procedure commands for a handle without connection: any single reply will do"""
     from bumble import hci
@@ -1305,7 +1335,7 @@ SCENARIOS = {
 }
 BASE_SCENARIOS = list(SCENARIOS)
 # families with their own plan (capability sets x roles; kinds of creation command)
-SCENARIOS.update({"le_second": (sc_le_second, 32), "le_roles": (sc_le_roles, 8)})
+SCENARIOS.update({"le_second": (sc_le_second, 32), "le_roles": (sc_le_roles, 8), "classic_roles": (sc_classic_roles, 4)})
 # capability sets of (central, peripheral): every set on either end against the default, and some on both ends
 CAP_PAIRS = [(0, 0)] + [(i, 0) for i in range(1, len(CAPS))] + [(0, i) for i in range(1, len(CAPS))] + [(1, 1), (2, 2), (3, 3), (4, 4), (len(CAPS) - 1, 2)]
 
@@ -1488,6 +1518,12 @@ def plan(ctx):
     for j in range(30 if quick else 600):
         descs.append({"fam": "puppet", "name": "credit", "seed": rng.randrange(1 << 30), "delay": rng.choice([0.0, 0.1, 0.5]),
                       "k": 1 + j % 4, "n": rng.randint(2, 5), "bads": [rng.choice(bads or [None]) for _ in range(2)] if j % 2 else []})
+    # BR/EDR page: allow_role_switch {0, 1} x role asked for by the acceptor {central, peripheral}, both ends' traces judged
+    # (appended last: the descriptors above keep their seeds)
+    for v in range(SCENARIOS["classic_roles"][1]):
+        for r in range(1 if quick else 6):
+            descs.append({"fam": "proc", "name": "classic_roles", "variant": v, "seed": rng.randrange(1 << 30),
+                          "delay": [0.0, 0.05, 0.4][(v + r) % 3], "k": 1 + (v + r) % 3})
     return descs, len(by_op)
 
 
@@ -1496,7 +1532,8 @@ def run(ctx, rep):
                 "and 21 unregistered opcodes alone and in seeded mixes issued by 1..4 concurrent callers, incl. commands whose hand-over fails "
                 "(unserialisable field value, sink that raises once) followed by further commands; (proc) procedure scenarios with peers "
                 "present / absent / vanishing, second LE connection creation (legacy / extended) while one is pending, procedures from central and "
-                "peripheral under each capability set on either controller with the link left up; (puppet) the real Host against a scripted controller with command-credit games; "
+                "peripheral under each capability set on either controller with the link left up, BR/EDR page with allow_role_switch {0,1} accepted with role "
+                "{central, peripheral} (Create Connection and Accept Connection Request both owed a Connection Complete); (puppet) the real Host against a scripted controller with command-credit games; "
                 "distinct = distinct event sequences")
     rep.assumptions = [
         "Command Complete or Command Status are both accepted as the one reply to any command (DESIGN Appendix D)",
